@@ -77,6 +77,12 @@ fn gen_component(rng: &mut Rng) -> String {
             let idx = s.char_indices().nth(at).map(|x| x.0).unwrap_or(s.len());
             s.insert(idx, c);
         }
+        3 => {
+            // a component made of non-ASCII letters only (characters vs bytes)
+            let n = *rng.pick(&[2usize, 3, 10, 33, 63, 64, 65]);
+            let c = *rng.pick(&['é', 'ß', 'λ', '中']);
+            s = std::iter::repeat(c).take(n).collect();
+        }
         2 => {
             // the reserved word: as prefix / exact / inside
             match rng.below(4) {
@@ -150,6 +156,8 @@ pub fn gen_script(rng: &mut Rng) -> NamesScript {
 pub enum First {
     Ok,
     Error(u32),
+    /// refused with an error frame, and then more frames arrived on the same stream
+    ErrorThenMore(u32, String),
     Closed,
     Timeout,
     OtherFrame,
@@ -174,7 +182,13 @@ async fn first_frame(conn: &quinn::Connection, frame: Frame) -> First {
     };
     match tokio::time::timeout(Duration::from_secs(5), s.next()).await {
         Ok(Some(Ok(Frame::Ok))) => First::Ok,
-        Ok(Some(Ok(Frame::Error(e)))) => First::Error(e.code),
+        Ok(Some(Ok(Frame::Error(e)))) => {
+            // a refusal is final: the stream must not go on to be served
+            match tokio::time::timeout(Duration::from_millis(300), s.next()).await {
+                Ok(Some(Ok(f))) => First::ErrorThenMore(e.code, format!("{f:?}").chars().take(40).collect()),
+                _ => First::Error(e.code),
+            }
+        }
         Ok(Some(Ok(_))) => First::OtherFrame,
         Ok(Some(Err(_))) | Ok(None) => First::Closed,
         Err(_) => First::Timeout,
@@ -339,11 +353,18 @@ pub fn execute(prop: &str, sc: &NamesScript, opts: &ExecOpts) -> Outcome {
                         // --- server side (pair) ---
                         let pv = pair_valid(&c.ns, &c.topic);
                         for (ri, f) in rep.raw.iter().enumerate() {
+                            if let First::ErrorThenMore(code, more) = f {
+                                out.violate(prop, "refused-then-served", "server", format!("role {ri}: ({}, {}) was refused with error code {code} and then the server sent {more} on the same stream", show(&c.ns), show(&c.topic)));
+                            }
                             th.word(match f {
                                 First::Ok => 1,
                                 First::Error(_) => 2,
                                 _ => 3,
                             });
+                            let f = &match f {
+                                First::ErrorThenMore(code, _) => First::Error(*code),
+                                other => other.clone(),
+                            };
                             if ascii {
                                 if pv && *f != First::Ok {
                                     out.violate(prop, "valid-name-refused-by-server", "server", format!("role {ri}: ({}, {}) is valid, the server answered {f:?}", show(&c.ns), show(&c.topic)));
@@ -363,6 +384,23 @@ pub fn execute(prop: &str, sc: &NamesScript, opts: &ExecOpts) -> Outcome {
                         // --- library side (string) ---
                         let sv = string_valid(&c.string);
                         let tf_ok = matches!(rep.try_from, Some(Ok(_)));
+                        // the server applies the same rule as the parser: for a canonical string
+                        // "/ns/topic" both must give the same verdict on any input, ASCII or not
+                        let canonical = c.string == format!("/{}/{}", c.ns, c.topic) && !c.ns.contains('/') && !c.topic.contains('/');
+                        if canonical && rep.try_from.is_some() {
+                            for (ri, f) in rep.raw.iter().enumerate() {
+                                let server_ok = matches!(f, First::Ok);
+                                let server_refused = matches!(f, First::Error(_) | First::ErrorThenMore(..));
+                                if (server_ok && !tf_ok) || (server_refused && tf_ok) {
+                                    out.violate(prop, "server-and-parser-disagree", if tf_ok { "parser-accepts" } else { "server-accepts" }, format!("role {ri}: TopicName::try_from({}) = {:?} but the server answered {f:?} to the same name", show(&c.string), rep.try_from.as_ref().map(|r| r.is_ok())));
+                                    break;
+                                }
+                            }
+                            let cv = matches!(rep.create, Some(Ok(_)));
+                            if rep.create.is_some() && cv != tf_ok {
+                                out.violate(prop, "create-and-parser-disagree", if tf_ok { "parser-accepts" } else { "create-accepts" }, format!("TopicName::create({}, {}) ok={cv} but try_from of the printed form ok={tf_ok}", show(&c.ns), show(&c.topic)));
+                            }
+                        }
                         if ascii {
                             if sv != tf_ok && rep.try_from.is_some() {
                                 out.violate(prop, "grammar-mismatch", if sv { "valid-rejected" } else { "invalid-accepted" }, format!("TopicName::try_from({}) = {:?}, the rule says {}", show(&c.string), rep.try_from, if sv { "valid" } else { "invalid" }));
